@@ -135,7 +135,7 @@ def run_requests(lines, workdir, shards=NPROC):
 
 
 # ---------------------------------------------------------------- proofs
-def check_proofs(prop):
+def check_proofs(prop, tier="quick"):
     """Re-check Properties/<prop>.v with coqc (its dependencies were built by make), collect
     the theorems, their Print Assumptions output, and grep the development for forbidden words.
     Returns dict(ok, obligations, discharged, theorems, axioms, problems, cmd)."""
@@ -154,41 +154,57 @@ def check_proofs(prop):
                 m = FORBIDDEN.search(txt_nc)
                 if m:
                     info["problems"].append("forbidden construct %r in %s" % (m.group(0), fn))
-    pf = os.path.join(COQ, "theories", "Properties", prop + ".v")
-    if not os.path.exists(pf):
+    import glob
+    files = sorted(f for f in glob.glob(os.path.join(COQ, "theories", "Properties", prop + "*.v"))
+                   if re.fullmatch(re.escape(prop) + r"[a-z]?\.v", os.path.basename(f)))
+    if not files:
         # no theorem file yet for this property: nothing to discharge (evidence level drops)
         info["ok"] = not info["problems"]
         info["cmd"] = "cd /verif/coq && make -j16"
         return info
-    cmd = "coqc -q -Q theories HCTL theories/Properties/%s.v" % prop
-    info["cmd"] = "cd /verif/coq && make -j16 && " + cmd
-    rc, out = sh("timeout 1500 " + cmd, cwd=COQ, timeout=1600)
-    if rc != 0:
-        info["problems"].append("coqc failed on Properties/%s.v: %s" % (prop, out[-1500:]))
-        return info
-    src = open(pf).read()
-    src_nc = re.sub(r"\(\*.*?\*\)", "", src, flags=re.S)
-    theorems = re.findall(r"^\s*(?:Theorem|Corollary)\s+(\w+)", src_nc, flags=re.M)
+    cmds = []
+    theorems_all = []
+    for pf in files:
+        base = os.path.basename(pf)
+        cmd = "coqc -q -Q theories HCTL theories/Properties/%s" % base
+        cmds.append(cmd)
+        rc, out = sh("timeout 1500 " + cmd, cwd=COQ, timeout=1600)
+        if rc != 0:
+            info["problems"].append("coqc failed on Properties/%s: %s" % (base, out[-1500:]))
+            continue
+        src = open(pf).read()
+        src_nc = re.sub(r"\(\*.*?\*\)", "", src, flags=re.S)
+        theorems = re.findall(r"^\s*(?:Theorem|Corollary)\s+(\w+)", src_nc, flags=re.M)
+        theorems_all += theorems
+        # Print Assumptions blocks: "Closed under the global context" or "Axioms:\n name : type ..."
+        closed = out.count("Closed under the global context")
+        axioms = re.findall(r"^Axioms:\n((?:.+\n?)+?)(?=^\S|\Z)", out, flags=re.M)
+        ax_names = []
+        for block in axioms:
+            for line in block.splitlines():
+                m = re.match(r"^(\S+)\s*:", line)
+                if m:
+                    ax_names.append(m.group(1))
+        info["axioms"] = sorted(set(info["axioms"]) | set(ax_names))
+        n_print = len(re.findall(r"^\s*Print Assumptions", src_nc, flags=re.M))
+        if n_print < len(theorems):
+            info["problems"].append("%s: %d theorems but only %d Print Assumptions" % (base, len(theorems), n_print))
+        if closed + len(axioms) < n_print:
+            info["problems"].append("%s: Print Assumptions output incomplete" % base)
+    info["cmd"] = "cd /verif/coq && make -j16 && " + " && ".join(cmds)
+    theorems = theorems_all
     info["theorems"] = theorems
     info["obligations"] = len(theorems)
-    # Print Assumptions blocks: "Closed under the global context" or "Axioms:\n name : type ..."
-    closed = out.count("Closed under the global context")
-    axioms = re.findall(r"^Axioms:\n((?:.+\n?)+?)(?=^\S|\Z)", out, flags=re.M)
-    ax_names = []
-    for block in axioms:
-        for line in block.splitlines():
-            m = re.match(r"^(\S+)\s*:", line)
-            if m:
-                ax_names.append(m.group(1))
-    info["axioms"] = sorted(set(ax_names))
     bad = [a for a in info["axioms"] if a not in AXIOM_ALLOWLIST]
     if bad:
         info["problems"].append("assumptions outside the allow-list: " + ", ".join(bad))
-    n_print = len(re.findall(r"^\s*Print Assumptions", src_nc, flags=re.M))
-    if n_print < len(theorems):
-        info["problems"].append("%d theorems but only %d Print Assumptions" % (len(theorems), n_print))
-    if closed + len(axioms) < n_print:
-        info["problems"].append("Print Assumptions output incomplete")
+    info["files"] = [os.path.basename(f) for f in files]
+    if tier == "thorough" and not info["problems"]:
+        # independent re-check of the compiled property file and everything it depends on
+        rc, out = sh("timeout 1500 coqchk -o -silent -Q theories HCTL %s" % " ".join("HCTL.Properties." + f[:-2] for f in info["files"]), cwd=COQ, timeout=1600)
+        info["coqchk"] = out[-600:]
+        if rc != 0 or "Axioms: <none>" not in out:
+            info["problems"].append("coqchk: " + out[-400:])
     info["discharged"] = len(theorems) if not info["problems"] else 0
     info["ok"] = not info["problems"]
     return info
